@@ -367,6 +367,39 @@ MonC08(S) ==
      SeqFails("C08.later-deliveries", S, Delivered(S, 0), ExpectedFrom(S, StartPos(S)), TRUE)
 
 (***************************************************************************)
+(* C15 (stream half): attribution to the table announced for the id, types *)
+(* of the most recent table map, names/signedness from the mapper by       *)
+(* ordinal, a mapper table of another column count is rejected.            *)
+(***************************************************************************)
+AnnouncedTables(S) ==
+  {[db |-> e.tbl.db, name |-> e.tbl.name] :
+     e \in UNION {{AllUnits(Files(S))[i].evs[j] : j \in 1..Len(AllUnits(Files(S))[i].evs)} : i \in 1..Len(AllUnits(Files(S)))} \cap
+           {x \in UNION {{AllUnits(Files(S))[i].evs[j] : j \in 1..Len(AllUnits(Files(S))[i].evs)} : i \in 1..Len(AllUnits(Files(S)))} : x.k = "tablemap"}}
+
+MonC15(S) ==
+  UNION {
+    LET p   == Plan(S, a)
+        ds  == Delivered(S, a)
+        xs  == ExpectedFrom(S, StartPos(S))
+        nb  == Len(AcceptedBefore(S, a))
+        at  == LinesAtt(S, "attempt", a)
+        mc  == LinesAtt(S, "mapperCall", a)
+        ret == StreamRet(S, a)
+        mismatched == \E i \in 1..Len(mc) : mc[i].res = "mismatch"
+    IN \* every delivery of the attempt matches the oracle in depth: table, column names, types, values
+       UNION {{F("C15.attribution", S, [what |-> f.what, got |-> a, want |-> 0, k |-> j, c |-> f.c, typ |-> f.typ]) :
+                 f \in IF nb + j <= Len(xs) THEN TxFails(ds[j], xs[nb + j], TRUE) ELSE {[c |-> 0, what |-> "unexpected transaction", typ |-> 0]}}
+              : j \in 1..Len(ds)} \cup
+       \* the mapper is asked about announced tables only
+       {Z("C15.mapper-call", S, "the table mapper was asked for a table that was never announced", a, i) :
+          i \in {j \in 1..Len(mc) : [db |-> mc[j].db, name |-> mc[j].tbl] \notin AnnouncedTables(S)}} \cup
+       (IF mismatched /\ ~(Len(ret) = 1 /\ ret[1].returned /\ ~ret[1].res.nil)
+        THEN {Z("C15.mismatch-rejected", S, "a mapper table with another column count did not end the stream with an error", a, 0)} ELSE {}) \cup
+       (IF mismatched /\ Len(at) = 1 /\ at[1].nbefore >= 0 /\ Len(ds) # at[1].nbefore
+        THEN {Z("C15.mismatch-rejected", S, "transactions delivered although the mapper's table mismatched", Len(ds), at[1].nbefore)} ELSE {})
+    : a \in 0..(NAttempts(S) - 1)}
+
+(***************************************************************************)
 (* Dispatch and the replay state machine.                                  *)
 (***************************************************************************)
 \* end-to-end halves of the value properties: the delivered cells of the property's column kinds match the oracle
@@ -380,6 +413,7 @@ Mon(p, S) ==
     [] p = "C04" -> MonC04(S)
     [] p = "C07" -> MonC07(S)
     [] p = "C17" -> MonC17(S)
+    [] p = "C15" -> MonC15(S)
     [] p = "C05" -> MonC05(S)
     [] p = "C06" -> MonC06(S)
     [] p = "C08" -> MonC08(S)
